@@ -7,6 +7,7 @@ import Csvq.Lemmas.Compare
 import Csvq.Model.Float
 import Csvq.Lemmas.Text
 import Csvq.Lemmas.Float
+import Csvq.Model.Cast
 namespace Csvq.C06
 open Csvq
 
@@ -346,6 +347,44 @@ theorem float_int_add_agree (p q : Int) (hp : p.natAbs < FVal.pow2 53) (hq : q.n
     calcFloat FVal.ieee .add (FVal.ofInt p) (FVal.ofInt q) = FVal.ofInt (p + q) := by
   rw [FVal.ofInt_exact p hp, FVal.ofInt_exact q hq, FVal.ofInt_exact (p + q) hr]
   exact FVal.add_int_exact p q hr
+
+/-! ## casting functions -/
+
+/-- INTEGER() of an integer is that integer; of a string it is the strict integer reading when there
+    is one, else the truncated float reading, else NULL -/
+theorem cast_integer_int (p : Profile) (i : Int) (h : p.raw = .int i) : castInteger p = .int i := by
+  simp [castInteger, h]
+
+theorem cast_integer_str (p : Profile) (s : Bytes) (h : p.raw = .str s) (i : Int) (hi : p.int? = some i) :
+    castInteger p = .int i := by
+  simp [castInteger, h, hi]
+
+theorem cast_integer_str_float (p : Profile) (s : Bytes) (h : p.raw = .str s) (hi : p.int? = none)
+    (f : FVal) (hf : p.flt? = some f) (t : Int) (ht : truncToInt64 f = some t) : castInteger p = .int t := by
+  simp [castInteger, h, hi, hf, ht]
+
+theorem cast_integer_str_null (p : Profile) (s : Bytes) (h : p.raw = .str s) (hi : p.int? = none)
+    (hf : p.flt? = none) : castInteger p = .null := by
+  simp [castInteger, h, hi, hf]
+
+/-- truncation is toward zero and never increases the magnitude (finite values inside the int64 range) -/
+theorem trunc_toward_zero (n : Int) (t : Int) (h : truncToInt64 (.fin n) = some t)
+    (hr : minI64 ≤ Int.tdiv n (FVal.unit : Int) ∧ Int.tdiv n (FVal.unit : Int) ≤ maxI64) :
+    t = Int.tdiv n (FVal.unit : Int) ∧ (t * (FVal.unit : Int)).natAbs ≤ n.natAbs := by
+  simp only [truncToInt64, hr, and_self, if_true, Option.some.injEq] at h
+  subst h
+  refine ⟨rfl, ?_⟩
+  rw [Int.natAbs_mul]
+  have h1 : (Int.tdiv n (FVal.unit : Int)).natAbs = n.natAbs / (FVal.unit : Int).natAbs := Int.natAbs_tdiv n _
+  rw [h1]; exact Nat.div_mul_le_self _ _
+
+/-- BOOLEAN() and TERNARY() agree: BOOLEAN(x) is NULL exactly when TERNARY(x) is UNKNOWN, for values
+    whose boolean reading is their ternary reading (everything but datetimes and NULL is so by profile) -/
+theorem cast_boolean_ternary (p : Profile)
+    (hwf : p.bool? = (match p.tern with | .T => some true | .F => some false | .U => none)) :
+    (castBoolean p = .null ↔ castTernary p = .tern .U) := by
+  unfold castBoolean castTernary
+  rw [hwf]; cases p.tern <;> simp
 
 /-! ## casting between text and integers (strconv.FormatInt / ParseInt as modelled in Model/Text.lean,
     both tied to the implementation by the streams c06.sint and c06.itext) -/
